@@ -417,3 +417,35 @@ def make_huge_id_spec(rng):
         lec.append(random_groups(rng, studs, rng.choice(['none', 'low', 'all'])))
     return {'na': 3, 'ns': ns, 'np': np_, 'nl': nl, 'st': st, 'plq': plq, 'puq': puq, 'plec': plec,
             'llq': llq, 'lt': lt, 'luq': luq, 'lec': lec, 'shape': 'huge_ids'}
+
+
+def make_long_rank_spec(rng):
+    """A student whose list has more than 1000 distinct ranks; all projects up to rank
+    1000+ have capacity 0, only the last few can take anybody."""
+    np_ = rng.randint(1003, 1010)
+    order = list(range(1, np_ + 1))
+    rng.shuffle(order)
+    ns = 2
+    st = [[[p] for p in order], [[order[-1]], [order[-2]]]]
+    puq = [0] * np_
+    for p in order[1000:]:
+        puq[p - 1] = 1
+    plq = [0] * np_
+    na = rng.choice([2, 3])
+    if na == 2:
+        nl = np_
+        plec = list(range(1, np_ + 1))
+        llq, lt, luq = list(plq), list(puq), list(puq)
+    else:
+        nl = 2
+        plec = [1 + (j % 2) for j in range(np_)]
+        luq = [2, 2]
+        llq = [0, 0]
+        lt = [1, 1]
+    lec = []
+    for k in range(nl):
+        studs = [x + 1 for x in range(ns) if any(plec[p - 1] == k + 1 for g in st[x] for p in g)]
+        rng.shuffle(studs)
+        lec.append([[x] for x in studs])
+    return {'na': na, 'ns': ns, 'np': np_, 'nl': nl, 'st': st, 'plq': plq, 'puq': puq, 'plec': plec,
+            'llq': llq, 'lt': lt, 'luq': luq, 'lec': lec, 'shape': 'long_ranks'}
